@@ -28,9 +28,21 @@ func ruleC07(c *Ctx) {
 	c.floor("GUARD", 2)
 	w := c.W
 	opt := w.fn("transform/codon", "Optimize")
+	if opt == nil {
+		c.missing("TERM-OPT", "codon.Optimize", "exported function codon.Optimize")
+		return
+	}
 	ch := w.method("transform/codon", "Table", "chooser")
-	if opt == nil || ch == nil {
-		c.missing("TERM-OPT", "codon.Optimize / Table.chooser", "codon.Optimize and the chooser builder")
+	if ch == nil {
+		// by role: the same-package function Optimize calls that returns the chooser map
+		for _, g := range family(opt) {
+			if g != opt && g.Signature.Results().Len() == 1 && strings.Contains(tname(g.Signature.Results().At(0).Type()), "weightedrand.Chooser") {
+				ch = g
+			}
+		}
+	}
+	if ch == nil {
+		c.missingHelper("TERM-CHOOSER", "chooser builder", "the function behind Optimize that builds the per-amino-acid choosers")
 		return
 	}
 	c.useFn(opt)
